@@ -1,6 +1,7 @@
 package regex
 
 import (
+	"fmt"
 	"regexp"
 
 	schema "github.com/jsightapi/jsight-schema-core"
@@ -76,7 +77,15 @@ func (s *RSchema) Example() ([]byte, error) {
 	return s.generateExample()
 }
 
-func (s *RSchema) generateExample() ([]byte, error) {
+func (s *RSchema) generateExample() (b []byte, err error) {
+	defer func() {
+		if r := recover(); r != nil {
+			// The generator panics on patterns it cannot produce a string for
+			// (e.g. an empty character class such as [^\x00-\x{10FFFF}]).
+			b, err = nil, errs.ErrRegexExample.F(fmt.Sprint(r))
+		}
+	}()
+
 	g, err := s.generatorOnce.Do(func() (*reggen.Generator, error) {
 		g, err := reggen.NewGenerator(s.pattern)
 		if err != nil {
